@@ -128,11 +128,8 @@ pub fn write_event(
     module_name: &str,
     logger_key: &str,
 ) {
-    let event_message = if message.len() > MAX_MESSAGE_LENGTH {
-        message[..MAX_MESSAGE_LENGTH].to_string()
-    } else {
-        message.to_string()
-    };
+    let event_message =
+        misc_helpers::truncate_at_char_boundary(&message, MAX_MESSAGE_LENGTH).to_string();
     let logger_key = logger_key.to_string();
     match EVENT_QUEUE.push(Event::new(
         level.to_string(),
